@@ -587,15 +587,40 @@ func (g *G) shadowStmt() []Stmt {
 		if name == "int" || name == "float" || name == "uint" {
 			args = []Expr{g.strLitNumeric()}
 		}
-		call := &Call{Fn: Id(name), Args: args}
+		var call Expr = &Call{Fn: Id(name), Args: args}
 		g.f("call-shadowed-builtin")
-		if g.cfg.Log {
-			return &ExprStmt{X: g.L(call)}
+		// mix the call with a constant identifier / literal in one expression (the compiler folds
+		// const literals itself and asks the optimizer to evaluate the rest)
+		consts := g.visible(func(v *Var) bool { return v.Const && v.K == KInt })
+		if len(consts) > 0 && g.chance(60, "mixconst") {
+			call = &Binary{Op: []string{"==", "!="}[g.pick(2, "mixop")], L: call, R: Id(consts[g.pick(len(consts), "mixvar")].Name)}
+			g.f("shadowed-call-mixed-with-const")
+		} else if g.chance(30, "mixlit") {
+			call = &Binary{Op: "==", L: call, R: g.scalarLit()}
 		}
-		g.uniq++
-		nm := fmt.Sprintf("s%d", g.uniq)
-		g.declare(&Var{Name: nm, K: KAny})
-		return &Define{Names: []string{nm}, X: call}
+		var st Stmt
+		if g.cfg.Log {
+			st = &ExprStmt{X: g.L(call)}
+		} else {
+			g.uniq++
+			nm := fmt.Sprintf("s%d", g.uniq)
+			g.declare(&Var{Name: nm, K: KAny})
+			return &Define{Names: []string{nm}, X: call}
+		}
+		if g.chance(40, "useinblock") {
+			// inside a nested block of the same function
+			switch g.pick(3, "useblock") {
+			case 0:
+				return &If{Cond: BoolLit(true), Then: []Stmt{st}}
+			case 1:
+				g.uniq++
+				iv := fmt.Sprintf("i%d", g.uniq)
+				return &For{Init: &Define{Names: []string{iv}, X: IntLit(0)}, Cond: &Binary{Op: "<", L: Id(iv), R: IntLit(1)}, Post: &IncDec{Target: Id(iv), Inc: true}, Body: []Stmt{st}}
+			default:
+				return &Try{Body: []Stmt{st}, HasFinally: true}
+			}
+		}
+		return st
 	}
 	switch g.pick(6, "shadowform") {
 	case 0:
